@@ -7,7 +7,7 @@
    decided by the extracted, proved monitor - this is the partial part. *)
 From Coq Require Import List String Ascii Bool Arith.
 Import ListNotations.
-From ClasticV Require Import Base.Py Base.Strs Model.Wsgi Proofs.WsgiProofs.
+From ClasticV Require Import Gen.MoreShapes Base.Py Base.Strs Model.Wsgi Proofs.WsgiProofs.
 Local Open Scope list_scope.
 
 (* every middleware type contributes its wrapper at most once *)
@@ -63,3 +63,32 @@ Example C13_example :
   monitor false [EStart true true; EStart true true; EClose] = false /\
   monitor false [EStart true true; EChunk 0 true] = false.
 Proof. vm_compute. repeat split; reflexivity. Qed.
+
+Local Open Scope string_scope.
+Local Open Scope list_scope.
+(* obligation on the source: the control-flow skeletons of _get_all_middlewares and _safe_wrap_wsgi (Application.__init__ is pinned in C11), regenerated from the source on every run.  The model is a
+   hand transcription of exactly these statements: any edit re-opens the correspondence question (the check then searches
+   for a failing input and reports what it finds) *)
+Theorem C13_stack_shape :
+  SK_GET_ALL_MIDDLEWARES =
+  ["all_mw = []";
+   "for broute in reversed(bound_routes)";
+   "  for mw in broute.middlewares";
+   "    if mw not in all_mw";
+   "      all_mw.append(mw)";
+   "return all_mw"] /\
+  SK_SAFE_WRAP_WSGI =
+  ["wsgi_wrapper = getattr(source, 'wsgi_wrapper', None)";
+   "if wsgi_wrapper is None";
+   "  return inner";
+   "else";
+   "  if not callable(wsgi_wrapper)";
+   "    raise TypeError('expected %s.wsgi_wrapper to be callable or None, not %r' % (source_name, wsgi_wrapper))";
+   "wrapped_wsgi = wsgi_wrapper(inner)";
+   "try";
+   "  check_valid_wsgi(wrapped_wsgi)";
+   "except TypeError as te";
+   "  raise TypeError('expected valid WSGI callable from %s (%r) WSGI wrapper (%r), instead got issue: %r' % (source_name, source, wsgi_wrapper, te))";
+   "return wrapped_wsgi"].
+Proof. repeat split; reflexivity. Qed.
+Print Assumptions C13_stack_shape.
